@@ -1,7 +1,8 @@
 /-
 C06: a budget-free description of what the fitting predicate looks at.  `scanE stk` is the width of the text on
 the current line — the flat group on top of the stack and whatever follows it, up to the first line break — or
-`none` if a forced-break document (`always_break`; contextual documents count as such here) starts on that line.
+`none` if a forced-break document (`always_break`; the contextual documents of `pretty_str` count as such here) starts on that
+line; `align(d)` is read as the normalised `d`.
 `fitsE left stk = true ↔ scanE stk = some n ∧ n ≤ left`.
 -/
 import PP.Proofs.FitsE
@@ -23,7 +24,7 @@ def scanE (stk : List Pair) : Option Nat :=
       | .hardline => some 0
       | .choice l b f => scanE ((m, pick m l b f) :: r)
       | .group d => scanE ((.flat, d) :: r)
-      | .align _ => none
+      | .align d => scanE ((m, d.normalize) :: r)
       | .pstr _ => none
 termination_by pSize stk
 decreasing_by
@@ -33,6 +34,7 @@ decreasing_by
     | omega
     | (have := Doc.sizes_le_sizesF ‹List Doc›; omega)
     | (exact Nat.add_lt_add_right (size_pick _ _ _ _) _)
+    | (have := Doc.size_normalize ‹Doc›; omega)
 
 theorem fitsE_iff_scan (left : Int) (stk : List Pair) :
     fitsE left stk = true ↔ 0 ≤ left ∧ ∃ n, scanE stk = some n ∧ (n : Int) ≤ left := by
@@ -60,7 +62,7 @@ theorem fitsE_iff_scan (left : Int) (stk : List Pair) :
   | case10 left hl m r => simp [scanE]; omega
   | case11 left hl m r l b f ih => rw [scanE]; simpa using ih
   | case12 left hl m r d ih => rw [scanE]; simpa using ih
-  | case13 left hl m r d => simp [scanE]
+  | case13 left hl m r d ih => rw [scanE]; simpa using ih
   | case14 left hl m r sp => simp [scanE]
 
 end PP
